@@ -189,7 +189,7 @@ Proof. intros {vars} Hpath v. unfold {T}_path in Hpath; rops. path_facts Hpath. 
   unfold rod_half_axis. cbn [a00 a01 a02 a10 a11 a12 a20 a21 a22].
   rewrite !diag_root_nonneg by assumption.
   change (nltb ROps) with Rltb. change (nabs ROps) with Rabs. change (nneg ROps) with Ropp. change (nmul ROps) with Rmult.
-  change (n0 ROps) with 0.
+  change (nadd ROps) with Rplus. change (n0 ROps) with 0.
   decide_path.
   match goal with |- context [Reqb ?a ?b] => destruct (Reqb_spec a b) as [E|E] end; [discriminate|].
   intros Ev; injection Ev as <-.
@@ -320,6 +320,10 @@ def gen_cases(rng, n, tier):
                            [0.0, 0.0, 3 * np.pi], _scaled([1.0, -2.0, 2.0], np.pi - 2.0 ** -20))):
         cases.append({"kind": "fwd_pi", "fn": ["cv2", "r2m"][i % 2], "shape": [[3], [3, 1], [1, 3]][i % 3],
                       "data": [float(x) for x in r], "jac": True})
+    for ax, off in (([1e-3, 2e-3, 1.0], 9e-6), ([2e-3, 1e-3, 1.0], 5e-6), ([1.0, -1e-3, 3e-3], 7e-6), ([3e-4, -1.0, 1e-3], 2e-6)):
+        R = _reference_r2m(_scaled(ax, math.pi - off))
+        cases.append({"kind": "inv_halfturn_two_small", "fn": "m2r", "shape": [3, 3], "data": R.reshape(-1).tolist(),
+                      "jac": False, "angle": math.pi - off})
     while len(cases) < n:
         u = rng.random()
         jac = rng.random() < 0.5
@@ -376,6 +380,18 @@ def gen_cases(rng, n, tier):
                 continue
             cases.append({"kind": "inv_halfturn_tiny_component", "fn": rng.choice(["cv2", "m2r"]), "shape": [3, 3],
                           "data": [x for row in R for x in row], "jac": jac})
+        elif u < 0.845:
+            # near a half-turn with TWO small axis components: the skew part s*k_l outweighs (1-c) k_i k_j in r[i,j]; the sign
+            # fix-ups must look at the symmetric part (fixes/C10-halfturn-sign-from-symmetric-part.diff)
+            ax = [rng.choice([1, -1]) * 10 ** rng.uniform(-4, -2.5), rng.choice([1, -1]) * 10 ** rng.uniform(-4, -2.5), rng.choice([1.0, -1.0])]
+            sh = rng.randrange(3)
+            ax = ax[sh:] + ax[:sh]
+            ang = math.pi - 10 ** rng.uniform(-6, -5.005)
+            R = _reference_r2m(_scaled(ax, ang))
+            if not _threshold_safe(R):
+                continue
+            cases.append({"kind": "inv_halfturn_two_small", "fn": rng.choice(["cv2", "m2r"]), "shape": [3, 3],
+                          "data": R.reshape(-1).tolist(), "jac": jac, "angle": ang})
         elif u < 0.855:
             # next to the branch switch s = 1e-5, on both sides, near 0 and near pi: judged by the 2.5e-5 clause / the amplified one
             f = rng.choice([0.9, 0.99, 0.999, 0.9999, 0.99999, 1.00001, 1.0001, 1.001, 1.01, 1.1])
